@@ -113,9 +113,10 @@ CHECKS = {
  "C01": ("5 C01",
   "Verdict logic under contract: run executes a line only while no line has failed unless ContinueOnError and never after stop; a failing line without ContinueOnError reaches FailNow; run returns normally only if no line failed (a failure with ContinueOnError still ends in FailNow: no false pass); "
   "PASS is logged only for a run that neither failed nor stopped; Fatalf's FAIL line carries the script's file name and current line number; runLine never dispatches an unknown command and indexes its argument list safely for every line; "
-  "catchFailNow runs its callback only for the failNow panic value; demands of exists (every listed file exists, or with ! does not) and of stdout/stderr/grep (match, or with ! no match; with -count=N exactly N matches) hold on every normal return.",
-  "assumed: only non-panicking executions are modelled (a Fatalf call ends its path, recover() is nil), so runLine's boolean result and callBuiltinCmd's panic filtering are trusted, as are setup, waitBackground, condition, cmdEnv and the logging closures; "
-  "T.FailNow / T.Fatal do not return; regexp semantics are uninterpreted (matchP / countP). NOT decided: the demands of the other commands (cd chmod cmp cp env exec kill mkdir mv rm skip stop stdin symlink unquote unix2dos wait), [cond] guard evaluation and the ! prefix (reassigned locals), background-command status, and the standalone testscript command's exit status",
+  "catchFailNow runs its callback only for the failNow panic value; the polarity applied to each [cond] guard is that of this very guard; demands of exists (every listed file exists, or with ! does not) and of stdout/stderr/grep/ttyout (match, or with ! no match; with -count=N exactly N matches) hold on every normal return; "
+  "for cd, chmod, cp, mkdir, mv, symlink, unquote, unix2dos, stdin, stop, cmp/cmpenv, wait and rm a normal return means the command was not negated where negation is unsupported, was used with the right number of arguments (every args index in bounds), and (except rm's best-effort first removal) no file operation it performed failed; skip never returns normally.",
+  "assumed: only non-panicking executions are modelled (a Fatalf call ends its path, recover() is nil), so runLine's boolean result and callBuiltinCmd's panic filtering are trusted, as are condition, cmdEnv, waitBackgroundOne, unix2DOS and the logging closures (setup and waitBackground are verified under C04); "
+  "T.FailNow / T.Fatal do not return; regexp semantics are uninterpreted (matchP / countP). NOT decided: env, kill, ttyin; what a successful cp/mv/mkdir/... did to the file system (the OS's); the evaluation of a condition itself (condition() is trusted), background-command status in wait, and the standalone testscript command's exit status; exec's verdict is covered as far as C04's process accounting and the usage check go",
   "contract-based deductive verification: loop invariant over the script loop, call-site obligations and per-command postconditions over go/ssa; z3/cvc5"),
  "C02": ("5 C02",
   "Contracts on the tokenizer parse (every line[i], line[i+1], line[start:i] in bounds for every line; the scan terminates; every call of expand happens outside quotes, i.e. quoted text is never expanded), "
